@@ -84,6 +84,7 @@ def run_pyvc(prop, tier, jobs):
 
     from contracts.property_map import PYVC_MODULES
 
+    os.environ["PYVC_TIER"] = tier  # rank / shape bounds of some contract modules are larger in the thorough tier
     return run_modules(PYVC_MODULES, props=[prop], jobs=jobs)
 
 
@@ -403,6 +404,7 @@ def write_baseline():
 
     from contracts.property_map import PYVC_MODULES
 
+    os.environ["PYVC_TIER"] = "thorough"  # the thorough task set is a superset of the quick one
     recs = run_modules(PYVC_MODULES, jobs=12)
     from pyvc import frames
 
